@@ -15,7 +15,7 @@ class Prop(PropBase):
     REQUIRED = ["Tpp.Props.C09." + n for n in ("C09_erase", "C09_erase_after", "C09_tracking", "C09_bytes", "erased_is_blank",
                                                 "C09_erase_any_size", "C09_erase_after_any_size")] + \
                ["Tpp.feed_eraseOp", "Tpp.agree_erase"]
-    RULE = ("exhaustive: each of the six erase manipulators after each of {nothing at all, default text, coloured blinking "
+    RULE = ("exhaustive short histories: EVERY sequence of up to 3 (thorough: 4) operations over an 18-operation alphabet on a 3x2 terminal (termgen.short_histories); exhaustive: each of the six erase manipulators after each of {nothing at all, default text, coloured blinking "
             "text, UTF-8 coloured text, another erase, a mode switch} at every cursor of a 4x3 grid, followed by coloured "
             "and default text; every case judged on Ref.VT in all three erase behaviours (plain, background-colour-erase, "
             "current-rendition) x three wrap modes x three initial renditions with non-blank initial cell contents; random "
@@ -45,4 +45,7 @@ class Prop(PropBase):
             nops = rng.choice([2, 3, 5, 8, 13, 21, 34]) if tier == "quick" else rng.choice([3, 8, 21, 60, 150])
             line = tg.history(rng, nops, sized=True, ops_weights=ERASE_WEIGHTS)
             cs.append(Case(line, tag="history", nontrivial=" er " in line, cfgs=tg.configs(rng, 3)))
+        shc = ["%d %d %d %d 7 4" % (wv, e, r, z) for wv in range(3) for e in range(3) for r in range(6) for z in range(4)]
+        for line, cf in tg.short_histories(3 if tier == "quick" else 4, shc):
+            cs.append(Case(line, sweep="short-histories", cfgs=cf))
         return cs
